@@ -238,8 +238,13 @@ thread_local! {
 }
 
 fn check_text(cx: &mut Ctx, src: &str) {
+    check_text_hosts(cx, src, &[0, 1, 2])
+}
+
+/// `his`: indexes into hosts() (0 none, 1 declining, 2 accepting)
+fn check_text_hosts(cx: &mut Ctx, src: &str, his: &[usize]) {
     for which in 0..2 {
-        for hi in 0..hosts().len() {
+        for hi in his.iter().cloned() {
             cx.eval();
             if let Some(kind) = text_kind(src, which, hi) {
                 // the panic site (message @ file:line) identifies the defect; the program is shrunk once per
@@ -366,7 +371,10 @@ impl Property for C07 {
         }
         let (c, i) = locate(tier, idx - l.deep - l.boundary);
         if let Some(src) = print(&c.program(i)) {
-            check_text(cx, &src);
+            // the reapply-loop corpus T4 holds no identifier and no undefined operation: hosts are never called there;
+            // the quick tier runs the other corpora without a host and with the accepting one, the thorough tier with all three
+            let his: &[usize] = if c.name == "T4" { &[0] } else if tier == Tier::Quick && c.name != "T1" { &[0, 2] } else { &[0, 1, 2] };
+            check_text_hosts(cx, &src, his);
             cx.nontrivial((c.name, i));
             cx.count("corpus_programs", 1);
             cx.sample_at(200_003, || json!({"program": src}));
@@ -395,7 +403,7 @@ impl Property for C07 {
     fn meta(&self, tier: Tier) -> Meta {
         let l = layout(tier);
         Meta {
-            rule: format!("(a) the {} programs of the C01 corpora and every accepted input of the C03/C04 token corpora (K1, K2, K4, K5; lengths up to 5 in the quick tier, all in the thorough tier); (b) {} boundary programs: every prefix/suffix operator on, and every binary operator (ranges, casts, concatenation, partial apply, conditionals included) between, 26 boundary literals (i32 limits, 31/32/33/64, huge float, empty and multi-byte text, empty bytes, symbol, symbol and identifier with a multi-byte name, unit, list, keyed list, range, concatenation), casts to the type of each literal, and index / apply / slice / slice-of-slice families over 6 container kinds x 8 boundary indexes; each run to completion (step cap 2 000) on both implementations under hosts {{none, declining, accepting}} with a mixed keyed/unkeyed list as input; (c) {} deep-data cases: pairs (left/right nested), lists and concatenations nested 10/100/1 000/10 000 deep built through the data API, then Equal (self, copy), LessThan, casts to CharList/ByteList/Symbol, `.|`, clone_data as single instructions. Verdict: no panic unwinds, no abort, no hang (supervised). Non-trivial: every case; distinct by text / parameters.", l.programs, l.boundary, l.deep),
+            rule: format!("(a) the {} programs of the C01 corpora and every accepted input of the C03/C04 token corpora (K1, K2, K4, K5; lengths up to 5 in the quick tier, all in the thorough tier); (b) {} boundary programs: every prefix/suffix operator on, and every binary operator (ranges, casts, concatenation, partial apply, conditionals included) between, 26 boundary literals (i32 limits, 31/32/33/64, huge float, empty and multi-byte text, empty bytes, symbol, symbol and identifier with a multi-byte name, unit, list, keyed list, range, concatenation), casts to the type of each literal, and index / apply / slice / slice-of-slice families over 6 container kinds x 8 boundary indexes; each run to completion (step cap 2 000) on both implementations under hosts {{none, declining, accepting}} (corpus programs: none and accepting in the quick tier, T4 loops without a host) with a mixed keyed/unkeyed list as input; (c) {} deep-data cases: pairs (left/right nested), lists and concatenations nested 10/100/1 000/10 000 deep built through the data API, then Equal (self, copy), LessThan, casts to CharList/ByteList/Symbol, `.|`, clone_data as single instructions. Verdict: no panic unwinds, no abort, no hang (supervised). Non-trivial: every case; distinct by text / parameters.", l.programs, l.boundary, l.deep),
             assumptions: vec![
                 "an Err returned by a step is acceptable; only unwinding, aborting and exceeding the wall budget are violations".into(),
                 "a worker that aborts (stack overflow) or hangs is attributed to the in-flight element by the supervisor and confirmed in a fresh process".into(),
